@@ -7,7 +7,7 @@ use crate::explore::*;
 use crate::rmatch::*;
 use serde_json::{Value, json};
 
-const RULE: &str = "every document over a 14-event alphabet (len<=n: unclosed, mis-nested, void, foreign self-closing, text, comments, doctype) x selector sets (singles and pairs from a 10-selector pool) x every subset of size<=2 (and the full set) of the 12 registrations {element, text, comments, on_end_tag} x {sel1, sel2} + {doc-text, doc-comments, doctype, end}, in natural and reversed registration order, plus variants where another handler removes content x {single write, a cut inside every token}; oracle: the normalised handler log == R-scope's prediction (exactly once, nothing outside scope, document order, registration order with selector-scoped before document-level, end handler last, end-tag handlers at the closing end tag); non-trivial = distinct (document, configuration) with >=2 predicted events";
+const RULE: &str = "every document over a 14-event alphabet (len<=n: unclosed, mis-nested, void, foreign self-closing, text, comments, doctype) x selector sets (singles and pairs from a 10-selector pool) x every subset of size<=2 (and the full set) of the 12 registrations {element, text, comments, on_end_tag} x {sel1, sel2} + {doc-text, doc-comments, doctype, end}, in natural and reversed registration order, plus variants where another handler removes content, plus the same registrations made as combined ElementContentHandlers / DocumentContentHandlers entries x {single write, a cut inside every token}; oracle: the normalised handler log == R-scope's prediction (exactly once, nothing outside scope, document order, registration order with selector-scoped before document-level, end handler last, end-tag handlers at the closing end tag); non-trivial = distinct (document, configuration) with >=2 predicted events";
 
 fn doc_alphabet() -> Vec<DEv> {
     vec![
@@ -71,7 +71,7 @@ fn all_regs() -> Vec<Reg> {
     ]
 }
 
-fn build_cfg(sels: &[SelList], regs: &[Reg]) -> Cfg {
+fn build_cfg(sels: &[SelList], regs: &[Reg], merge: bool) -> Cfg {
     let s = |i: u8| sels[i as usize % sels.len()].render();
     let hs = regs
         .iter()
@@ -87,7 +87,7 @@ fn build_cfg(sels: &[SelList], regs: &[Reg]) -> Cfg {
             Reg::Remover(i) => HSpec { log: false, ..HSpec::with_ops(HKind::Element, &s(*i), vec![Op::Remove]) },
         })
         .collect();
-    Cfg::with(hs).strict(false)
+    Cfg::with(hs).strict(false).merged(merge)
 }
 
 /// Predicted event, location-identified. Compared with the implementation's normalised log.
@@ -256,17 +256,19 @@ pub fn replay(case: &Value) -> Option<String> {
     let regs: Vec<Reg> = serde_json::from_value(case["regs"].clone()).ok()?;
     let evs: Vec<DEv> = serde_json::from_value(case["doc"].clone()).ok()?;
     let cut = case["cut"].as_bool()?;
-    let p = Prepared::new(build_cfg(&sels, &regs)).ok()?;
+    let merge = case["merge"].as_bool().unwrap_or(false);
+    let p = Prepared::new(build_cfg(&sels, &regs, merge)).ok()?;
     check(&p, &sels, &regs, &evs, cut).0
 }
 
 struct Conf {
     sels: Vec<SelList>,
     regs: Vec<Reg>,
+    merge: bool,
     p: Prepared,
 }
 
-fn confs(sel_sets: &[Vec<SelList>], reg_sets: &[Vec<Reg>]) -> Vec<Conf> {
+fn confs(sel_sets: &[Vec<SelList>], reg_sets: &[Vec<Reg>], merge: bool) -> Vec<Conf> {
     let mut v = vec![];
     for s in sel_sets {
         for r in reg_sets {
@@ -274,8 +276,8 @@ fn confs(sel_sets: &[Vec<SelList>], reg_sets: &[Vec<Reg>]) -> Vec<Conf> {
             if s.len() == 1 && r.iter().any(|x| matches!(x, Reg::El(1) | Reg::Text(1) | Reg::Comm(1) | Reg::EndTag(1) | Reg::Remover(1))) {
                 continue;
             }
-            let cfg = build_cfg(s, r);
-            v.push(Conf { sels: s.clone(), regs: r.clone(), p: Prepared::new(cfg).unwrap() });
+            let cfg = build_cfg(s, r, merge);
+            v.push(Conf { sels: s.clone(), regs: r.clone(), merge, p: Prepared::new(cfg).unwrap() });
         }
     }
     v
@@ -310,7 +312,7 @@ fn slice(ctx: &Ctx, name: &str, alpha: &[DEv], max_len: usize, confs: &[Conf], w
                     ctx.nontrivial.insert(digest(&(di, &c.regs, c.sels.iter().map(|s| s.render()).collect::<Vec<_>>())));
                 }
                 if let Some(msg) = m {
-                    let case = json!({"selectors": c.sels, "selector_strings": c.sels.iter().map(|s| s.render()).collect::<Vec<_>>(), "regs": c.regs, "doc": evs, "cut": cut});
+                    let case = json!({"selectors": c.sels, "selector_strings": c.sels.iter().map(|s| s.render()).collect::<Vec<_>>(), "regs": c.regs, "doc": evs, "cut": cut, "merge": c.merge});
                     let c2 = case.clone();
                     ctx.violation(msg, case, &|| replay(&c2));
                 }
@@ -351,8 +353,18 @@ pub fn run_check(ctx: &Ctx) -> i32 {
     let big_sets = vec![full.clone(), full_rev.clone(), with_remover.clone(), with_remover2.clone()];
     let quick = ctx.quick();
     let all_sel: Vec<Vec<SelList>> = singles.iter().chain(pairs.iter()).cloned().collect();
-    slice(ctx, &format!("D<={} x {} selector sets x {} registration subsets of size<=2 (both orders)", if quick { 3 } else { 4 }, all_sel.len(), small_sets.len()), &alpha, if quick { 3 } else { 4 }, &confs(&all_sel, &small_sets), true);
-    slice(ctx, &format!("D<={} x {} selector sets x full registration set (natural, reversed) + 2 content-removing variants, with cuts", if quick { 4 } else { 5 }, all_sel.len()), &alpha, if quick { 4 } else { 5 }, &confs(&all_sel, &big_sets), true);
+    slice(ctx, &format!("D<={} x {} selector sets x {} registration subsets of size<=2 (both orders)", if quick { 3 } else { 4 }, all_sel.len(), small_sets.len()), &alpha, if quick { 3 } else { 4 }, &confs(&all_sel, &small_sets, false), true);
+    slice(ctx, &format!("D<={} x {} selector sets x full registration set (natural, reversed) + 2 content-removing variants, with cuts", if quick { 4 } else { 5 }, all_sel.len()), &alpha, if quick { 4 } else { 5 }, &confs(&all_sel, &big_sets, false), true);
+    // the same registrations as combined entries: {element, text, comments} of one selector in ONE
+    // ElementContentHandlers, {doctype, comments, text, end} in ONE DocumentContentHandlers
+    let merged_sets: Vec<Vec<Reg>> = vec![
+        full.clone(),
+        vec![Reg::Text(0), Reg::Comm(0), Reg::DocText, Reg::DocComm],
+        vec![Reg::El(0), Reg::Text(0), Reg::Comm(0), Reg::El(1), Reg::Text(1), Reg::Comm(1)],
+        vec![Reg::Comm(0), Reg::Text(0), Reg::EndTag(0), Reg::Comm(1), Reg::Text(1), Reg::DocEnd, Reg::DocText],
+        with_remover.clone(),
+    ];
+    slice(ctx, &format!("D<={} x {} selector sets x {} registration sets registered as COMBINED handler entries, with cuts", if quick { 4 } else { 5 }, all_sel.len(), merged_sets.len()), &alpha, if quick { 4 } else { 5 }, &confs(&all_sel, &merged_sets, true), true);
     ctx.finish(
         "model_checking",
         RULE,
